@@ -44,6 +44,9 @@ type Services struct {
 	BeaconCommitteeSubscriber beaconcommitteesubscriber.Service
 	ProposalsPreparer         proposalpreparer.Service
 	BlockToSlot               cache.BlockRootToSlotSetter
+	// Providers the controller itself consults (nil: the world's Node).
+	BeaconBlockHeadersProvider eth2client.BeaconBlockHeadersProvider
+	SignedBeaconBlockProvider  eth2client.SignedBeaconBlockProvider
 }
 
 // Options customise a world.
@@ -308,6 +311,12 @@ func (w *World) Start(waitedForGenesis bool) error {
 	if svcs.BlockToSlot == nil {
 		svcs.BlockToSlot = &RecBlockToSlot{w: w}
 	}
+	if svcs.BeaconBlockHeadersProvider == nil {
+		svcs.BeaconBlockHeadersProvider = w.Node
+	}
+	if svcs.SignedBeaconBlockProvider == nil {
+		svcs.SignedBeaconBlockProvider = w.Node
+	}
 	proc.Services = svcs
 	w.mu.Lock()
 	w.pendingHandlers = map[string][]eth2client.EventHandlerFunc{}
@@ -327,8 +336,8 @@ func (w *World) Start(waitedForGenesis bool) error {
 		controller.WithValidatingAccountsProvider(w.Accounts),
 		controller.WithAttester(svcs.Attester),
 		controller.WithBeaconBlockProposer(svcs.Proposer),
-		controller.WithBeaconBlockHeadersProvider(w.Node),
-		controller.WithSignedBeaconBlockProvider(w.Node),
+		controller.WithBeaconBlockHeadersProvider(svcs.BeaconBlockHeadersProvider),
+		controller.WithSignedBeaconBlockProvider(svcs.SignedBeaconBlockProvider),
 		controller.WithProposalsPreparer(svcs.ProposalsPreparer),
 		controller.WithAttestationAggregator(svcs.AttAggregator),
 		controller.WithBeaconCommitteeSubscriber(svcs.BeaconCommitteeSubscriber),
